@@ -144,6 +144,6 @@ func defaultOnce() []string {
 	return []string{"unicode", "unicode/utf8", "strconv", "strings", "bytes", "io", "io/fs", "bufio", "sort", "math", "math/bits",
 		"path", "path/filepath", "internal/bytealg", "internal/itoa", "time", "encoding/base64", "encoding/hex", "encoding/binary",
 		"container/list", "container/heap", "unicode/utf16", "hash/crc32", "context", "text/tabwriter", "regexp/syntax", "slices", "maps", "cmp",
-		"gopkg.in/tomb.v2"}
+		"gopkg.in/tomb.v2", "crypto"}
 }
 
